@@ -28,6 +28,7 @@ def run(ctx):
     from ..families.fad import FRECHET_FN
     streams.fn_corr(ctx, ents=ents + [FRECHET_FN])
     streams.presentation_variants(ctx, fn_ents=ents + [FRECHET_FN], hist_ents=ents, sizes=(1, 2, 3, 8, 40), hist_sizes=(1, 2, 5, 24))   # symbolic log sums: keep the trees small
+    streams.wide_corr(ctx, ents)
     bad = rs.directed_histories(ctx, ents)
     rs.report(ctx, bad, "tie:directed", "directed_history_vs_model")
     rs.alias_probe(ctx, ents)
